@@ -618,35 +618,47 @@ class Printer:
                 self.t(hdr[2])
                 self.param(hdr[3])
 
+    def macrodef(self, m):
+        self.mark(("macrodef", m[0]))
+        self.t("macro", ("nl", 0))
+        self.t(m[0])
+        self.t("(", "")
+        for i, v in enumerate(m[1]):
+            if i:
+                self.t(",", "")
+            self.t(v, " " if i else "")
+        self.t(")", "")
+        self.block(m[2])
+
+    def routinedef(self, ri, hdr, body):
+        self.mark(("routine", ri))
+        self.routine_header(hdr)
+        if body is None:
+            self.t("{")
+            self.ind += 1
+            self.nl("alias")
+            self.t("previous")
+            self.t(";", "")
+            self.ind -= 1
+            self.nl("}")
+        else:
+            self.block(body)
+
     def program(self, prog):
         for imp in prog.get("imports", []):
             self.t("import", ("nl", 0))
             self.t(spell_single(imp, '"'))
             self.t(";", "")
-        for m in prog.get("macros", []):
-            self.mark(("macrodef", m[0]))
-            self.t("macro", ("nl", 0))
-            self.t(m[0])
-            self.t("(", "")
-            for i, v in enumerate(m[1]):
-                if i:
-                    self.t(",", "")
-                self.t(v, " " if i else "")
-            self.t(")", "")
-            self.block(m[2])
-        for ri, (hdr, body) in enumerate(prog["routines"]):
-            self.mark(("routine", ri))
-            self.routine_header(hdr)
-            if body is None:
-                self.t("{")
-                self.ind += 1
-                self.nl("alias")
-                self.t("previous")
-                self.t(";", "")
-                self.ind -= 1
-                self.nl("}")
+        # definition order: macros first unless the program says otherwise (prog["order"]: list of ("m", i) / ("r", i))
+        default = [("m", i) for i in range(len(prog.get("macros", [])))] + [("r", i) for i in range(len(prog["routines"]))]
+        order = [tuple(x) for x in prog.get("order") or default]
+        if sorted(order) != sorted(default):
+            order = default  # (a minimiser or an injection changed the definitions: the recorded order no longer applies)
+        for what, idx in order:
+            if what == "m":
+                self.macrodef(prog["macros"][idx])
             else:
-                self.block(body)
+                self.routinedef(idx, *prog["routines"][idx])
         return self.toks
 
 
